@@ -72,7 +72,7 @@ def gen_disk_case(rng, nb=None, mode=None, cotan=None, small=False):
         if small:
             edits = rng.choice([0, 1, 2])
         kind, pts, faces = G.make_disk(rng, nb, kind=kind, n_edits=edits, planar_valid=cotan)
-        if len(faces) > 100 or len(pts) > 70:
+        if len(faces) > 72 or len(pts) > 56:
             continue
         verts, fs = G.finish(rng, pts, faces, lift=lift)
         if not O.is_disk(len(verts), fs):
@@ -80,9 +80,9 @@ def gen_disk_case(rng, nb=None, mode=None, cotan=None, small=False):
         if cotan and not G.nondegenerate(verts, fs, eps=0.05):
             continue
         onb = set(G.border_cycle(fs)[0])
-        if cotan and len(verts) - len(onb) > 12:
+        if cotan and len(verts) - len(onb) > 9:
             continue
-        if len(verts) - len(onb) > 34:
+        if len(verts) - len(onb) > 26:
             continue
         break
     else:
@@ -107,7 +107,7 @@ def gen_cases(ctx):
             for mode in ("circle", "square", "custom"):
                 cases.append(gen_disk_case(rng, nb=nb, mode=mode, cotan=False))
             cases.append(gen_disk_case(rng, nb=nb, cotan=True))
-        for _ in range(90):
+        for _ in range(48):
             cases.append(gen_disk_case(rng))
         for _ in range(16):
             k, v, f = G.non_disk(rng)
@@ -287,7 +287,7 @@ def case_term(case, obs, cert):
 def run_impl_cases(cases, timeout=900):
     if not cases:
         return []
-    nsh = max(1, min(core.NCPU, len(cases) // 8))
+    nsh = max(1, min(core.NCPU // 2 if len(cases) < 600 else core.NCPU, len(cases) // 8))
     res = core.run_impl_parallel("vf.impl.c17_driver", [{"cases": cases[i::nsh]} for i in range(nsh)], timeout=timeout)
     obs = [None] * len(cases)
     for i, r in enumerate(res):
@@ -452,7 +452,7 @@ def run(ctx):
     bad = []
     if b["model_ok"]:
         ctx.log("correspondence: %d case terms" % len(terms))
-        shard = max(4, min(400, -(-len(terms) // (2 * core.NCPU))))
+        shard = max(4, min(400, -(-len(terms) // core.NCPU)))
         r = ctx.run_cases("tutte", HEADER, terms, "check_case", case_type="tcase", shard=shard, timeout=900)
         bad = [term_idx[i] for i in (r or [])]
     else:
